@@ -1,4 +1,5 @@
 import SlipVerif.Theorems.C09
+import SlipVerif.Theorems.C09Stack
 import SlipVerif.Driver.Totality
 /- C09 — obligations over the tables regenerated from the current sources
    (Gen/C09Reader.lean from code.go, Gen/C09Format.lean from pkg/cl/control.go).
@@ -53,5 +54,39 @@ theorem reader_run_total_now (bytes : List Nat) (hb : ∀ b ∈ bytes, b < 256) 
 theorem format_scan_total_now (s : List Nat) (hb : ∀ b ∈ s, b < 256) :
     scanDirective formatTables s ≠ .outOfFuel ∧ scanDirective formatTables s ≠ .indexFault :=
   format_scan_total formatTables format_tables_ok s hb
+
+/-! sharp macro argument and object stack (Gen/C09Sharp.lean, extracted from code.go) -/
+
+open SlipVerif.ReaderStack SlipVerif.Theorems.C09Stack in
+/-- the constants of the current sources: the guard before `r.sharpNum*10 + digit` leaves room for
+    the digit (guard*10+9 ≤ math.MaxInt), the `r.base = r.sharpNum` clause checks a radix range inside
+    what math/big accepts, ArrayMaxRank bounds the allocation -/
+theorem sharp_consts_ok : SharpOK sharpConsts = true := by decide +kernel
+
+open SlipVerif.ReaderStack SlipVerif.Theorems.C09Stack in
+/-- `#<digits>A` / `#<digits>R` for every digit string, with the constants of the current sources -/
+theorem sharp_dispatch_total_now (ds : List Nat) (hd : ∀ d ∈ ds, d ≤ 9) (array : Bool) :
+    sharpDispatch sharpConsts ds array ≠ .fault :=
+  (sharp_dispatch_total sharpConsts sharp_consts_ok ds hd array).1
+
+/-- the model's stack operations are the code's: every open records len(r.stack) in r.starts and
+    pushes exactly one opener; r.starts shrinks only in closeList, which raises first when it is empty -/
+theorem stack_discipline :
+    SlipVerif.Gen.C09Sharp.startsAppendsOK = true ∧ 1 ≤ SlipVerif.Gen.C09Sharp.startsAppendCount ∧
+    SlipVerif.Gen.C09Sharp.startsShrinkOutsideClose = 0 ∧ SlipVerif.Gen.C09Sharp.closeGuardsEmpty = true := by
+  decide
+
+/-- every `c.args[c.argPos]` of control.go is reached only after both bounds of the cursor were
+    checked in the same function (nextArg and the `~:@{` loop) -/
+theorem cursor_guards_ok : cursorGuards.checksLow = true ∧ cursorGuards.checksHigh = true ∧
+    1 ≤ SlipVerif.Gen.C09Format.argIndexSites := by decide
+
+open SlipVerif.ReaderStack in
+/-- argument cursor totality with the guards of the current sources: no sequence of argument
+    consuming directives and `~*` moves indexes c.args out of range -/
+theorem cursor_run_total_now (len : Nat) (ops : List CurOp) (k : Nat) :
+    runCursor cursorGuards len 0 0 [] ops ≠ .fault k :=
+  (SlipVerif.Theorems.C09Stack.cursor_run_total cursorGuards cursor_guards_ok.1 cursor_guards_ok.2.1 len ops 0 0 []
+    (Int.le_refl 0) (Int.natCast_nonneg _) nofun).1 k
 
 end SlipVerif.Theorems.GenC09
